@@ -764,6 +764,12 @@ func (m *InterpModel) Branch(mc *Machine, st *State, in *ssa.If, cond AV, taken 
 		m.Emit(st, m.ev(in, "test", []string{c.S}, fmt.Sprint(t)))
 		return
 	}
+	if cond.K == KUnk && m.EmitTests {
+		// a decision on something the machine cannot name (a call it does not model, an over-long expression): the
+		// word-level specifications must see that the path forks here, or an unexplained choice would pass as no choice
+		m.Emit(st, m.ev(in, "test", []string{"?" + describe(in.Cond)}, fmt.Sprint(taken)))
+		return
+	}
 	if u, ok := in.Cond.(*ssa.UnOp); ok {
 		if g, ok := u.X.(*ssa.Global); ok && g == m.ii.FlagRT {
 			e := m.ev(in, "flagtest", nil, fmt.Sprint(taken))
